@@ -342,10 +342,9 @@ def updSave (cfg : Cfg M K R) (wr : WriteReq M K) (c : UpdCtx M R) (m : M) : Upd
   let (t, st') := updateTimeC cfg wr c.st
   { c with st := { st' with items := setItem st'.items c.id { body := m, time := t } } }
 
-/-- `Collection.Update(id, msg, opts...)` -/
-def Coll.update (cfg : Cfg M K R) (s : CState M R) (id : String) (msg : M) (wr : WriteReq M K) :
+/-- `Collection.Update(id, msg, opts...)` from the id its `get` callback starts from -/
+def Coll.updateAt (cfg : Cfg M K R) (s : CState M R) (id : String) (msg : M) (wr : WriteReq M K) :
     COut M × CState M R :=
-  let id := updKey cfg wr id
   let u := fieldUpdater cfg wr
   match cfg.ops.validate u msg with
   | some c => ({ val := none, err := some c, events := [], idCalls := [], createdCalls := 0 }, s)
@@ -366,6 +365,18 @@ def Coll.update (cfg : Cfg M K R) (s : CState M R) (id : String) (msg : M) (wr :
     | none, none =>
       ({ val := none, err := some .internal, events := [], idCalls := c.idCalls,
          createdCalls := c.createdCalls }, c.st)  -- unreachable
+
+/-- `Collection.Update(id, msg, opts...)` -/
+def Coll.update (cfg : Cfg M K R) (s : CState M R) (id : String) (msg : M) (wr : WriteReq M K) :
+    COut M × CState M R :=
+  Coll.updateAt cfg s (updKey cfg wr id) msg wr
+
+/-- `Collection.Update` as it was before fix 929e9c0: the emptiness of the id was tested after the id
+interceptor had run, i.e. the `get` callback started from the intercepted id whatever the caller gave
+(kept for the witness `C01_genid_legacy_prefix_never_generates` and for `C01_genid_fix_conservative`) -/
+def Coll.updateLegacy (cfg : Cfg M K R) (s : CState M R) (id : String) (msg : M) (wr : WriteReq M K) :
+    COut M × CState M R :=
+  Coll.updateAt cfg s (icptId cfg id) msg wr
 
 /-- `Collection.Add` = `Update` with `WithExpectAbsent(), WithCreateIfAbsent()` prepended. -/
 def Coll.add (cfg : Cfg M K R) (s : CState M R) (id : String) (msg : M) (wr : WriteReq M K) :
